@@ -111,7 +111,9 @@ static const char *rel(const char *path, char *out, size_t outsiz) {
 		snprintf(out, outsiz, "@/%s", q);
 		return out;
 	}
-	return path;
+	/* copy: callers pass buffers that do not outlive them (fdname) */
+	snprintf(out, outsiz, "%s", path);
+	return out;
 }
 
 /* the path a descriptor refers to, relative to the root */
